@@ -12,7 +12,7 @@ import (
 )
 
 var c19Ops = []string{"Start", "Client", "Protocol", "ReattachConfig", "ID", "Exited", "Kill"}
-var c19Modes = []string{"ok", "fail-line", "fail-timeout", "fail-exit", "prelaunch-fail", "proc-ok", "proc-fail", "cmd-ok", "cmd-fail"}
+var c19Modes = []string{"ok", "fail-line", "fail-timeout", "fail-exit", "fail-proto", "fail-cert", "prelaunch-fail", "proc-ok", "proc-fail", "cmd-ok", "cmd-fail"}
 
 func c19Gen(r *rand.Rand, tier string) []spec.Case {
 	var out []spec.Case
@@ -20,14 +20,14 @@ func c19Gen(r *rand.Rand, tier string) []spec.Case {
 	weights := []string{"Start", "Start", "Client", "Client", "Protocol", "ReattachConfig", "ID", "Exited", "Kill", "Kill"}
 	nseq, ncon := 150, 200
 	if tier == "thorough" {
-		nseq, ncon = 3000, 5000
+		nseq, ncon = 12000, 18000
 	}
 	modeFor := func(i int) string {
 		// scripted modes are cheap: 3 of 4 cases; real processes the rest
 		if i%4 == 3 {
-			return pick(r, c19Modes[5:])
+			return pick(r, c19Modes[7:])
 		}
-		return pick(r, c19Modes[:5])
+		return pick(r, c19Modes[:7])
 	}
 	for i := 0; i < nseq; i++ {
 		n := 1 + r.Intn(10)
@@ -49,7 +49,7 @@ func c19Gen(r *rand.Rand, tier string) []spec.Case {
 		add("conc", spec.C19Case{Mode: modeFor(i), Threads: th, Jitter: r.Intn(2) == 0})
 	}
 	// the D11 shape explicitly: failed first Start, then everything at once
-	for _, m := range []string{"fail-line", "fail-timeout", "fail-exit", "proc-fail"} {
+	for _, m := range []string{"fail-line", "fail-timeout", "fail-exit", "fail-proto", "fail-cert", "proc-fail"} {
 		th := [][]string{{"Start"}}
 		add("seq", spec.C19Case{Mode: m, Threads: [][]string{{"Start", "Start", "Client", "Protocol", "Kill", "Start"}}})
 		for k := 0; k < 8; k++ {
